@@ -1,6 +1,8 @@
 package engine
 
 import (
+	"fmt"
+	"os"
 	"sort"
 	"time"
 )
@@ -88,7 +90,9 @@ func RunBatch(property string, p Profile, verifSeed uint64, from, to int, mandat
 			out.To = i
 			break
 		}
+		watchdogArm(p.Name, i)
 		r := RunOne(p, verifSeed, i, Options{Target: property})
+		watchdogDisarm()
 		out.Runs++
 		st := r.Stats
 		out.Actions += int64(st.Actions)
@@ -235,3 +239,28 @@ func makeSample(r *RunResult, profile string, maxActs int) Sample {
 	}
 	return s
 }
+
+// A run that takes absurdly long (a loop inside the code under test, or in the
+// simulator) must not hang the check: the worker gives up with a diagnostic
+// and a distinct exit status; the parent reports a tool problem (exit 2).
+var wdStop = make(chan struct{}, 1)
+
+// RunWallLimit is the per-run wall clock limit.
+var RunWallLimit = 240 * time.Second
+
+func watchdogArm(profile string, i int) {
+	select {
+	case <-wdStop:
+	default:
+	}
+	go func() {
+		select {
+		case <-wdStop:
+		case <-time.After(RunWallLimit):
+			fmt.Fprintf(os.Stderr, "watchdog: run %d of profile %s exceeded %v\n", i, profile, RunWallLimit)
+			os.Exit(3)
+		}
+	}()
+}
+
+func watchdogDisarm() { wdStop <- struct{}{} }
